@@ -50,7 +50,7 @@ func c13Profiles(tier string) []Profile {
 	p3 := mk("three", [][]byte{kA, kB, kC}, 3, d3)
 	faulted := Profile{Name: "after-faults", Exec: OnlySigs(OnlyOracles(c07ExecMon(1, 1, false, harness.Monitors{Invariant: true, Format: true}), "invariant", "format", "model"), "invariant:", "format:", "model:totals"),
 		Budget: map[int]int{1: 0, 2: 0, 3: 1}, ShardLevel: 3,
-		Rule: "treap invariants when a file call fails: the C07 driver (7 initial stores x every single operation x one failing file call at every index, retried or not; a call that reports success is taken at its word) followed by Set, Flush, the full read battery, a copy of the file re-opened, Reopen and the battery again; after the suffix's Flush and again after its Reopen the walk of the cached tree must satisfy order, aggregates and heap order, GetTotals must equal the model, and every flushed tree must pass the independent decoder's aggregate checks (a mutation that drops the read error of a sibling subtree records wrong counts)"}
+		Rule: "treap invariants when a file call fails: the C07 driver (8 initial stores x every single operation x one failing file call at every index, retried or not; a call that reports success is taken at its word) followed by Set, Flush, the full read battery, a copy of the file re-opened, Reopen and the battery again; after the suffix's Flush and again after its Reopen the walk of the cached tree must satisfy order, aggregates and heap order, GetTotals must equal the model, and every flushed tree must pass the independent decoder's aggregate checks (a mutation that drops the read error of a sibling subtree records wrong counts)"}
 	ns, ds := 5, 2
 	if tier == "thorough" {
 		ns, ds = 6, 2
